@@ -82,7 +82,13 @@ class KalmanLift:
             c = real_predict(*a, **k)
             outer.caches.append(c)
             return c
-        la = npproxy.SubProxy(np.linalg, {"det": lambda a: np.linalg.det(_ground(a)), "inv": lambda a: np.linalg.inv(_ground(a))})
+        def lstsq(A, b, rcond=None):
+            # least squares with a CONCRETE matrix and a symbolic right-hand side: x = pinv(A) b (minimum-norm solution, linear in b)
+            b_arr = np.asarray(b)
+            if b_arr.dtype != object or not S.has_symbol(b_arr):
+                return np.linalg.lstsq(_ground(A), _ground(b_arr), rcond=rcond)
+            return np.linalg.pinv(_ground(A)) @ b_arr, None, None, None
+        la = npproxy.SubProxy(np.linalg, {"det": lambda a: np.linalg.det(_ground(a)), "inv": lambda a: np.linalg.inv(_ground(a)), "lstsq": lstsq})
         self.proxy = npproxy.Proxy(linalg=la)
         extra = [(kk, "Dataslate", LiftDS()), (kk, "predict", predict),
                  (kk, "_INVERSE_FUNCTION", dict(kk._INVERSE_FUNCTION, regular=lambda F: np.linalg.inv(_ground(F))))]
